@@ -1010,3 +1010,114 @@ func c23ThroughServer(r *verifkit.R, n int, aborted, stalledOnce *atomic.Bool) {
 		c23Judge(r, "server", i, c, res)
 	})
 }
+
+// ---------------------------------------------------------------- round 5: sessions sharing one Handler
+
+// TestVerif_C23_Shared: every other phase gives each session its own Handler or runs the sessions
+// of one Server one after the other. Here 8 clients of ONE socks5.Server (one Handler) are
+// released together, each running several sessions that must end in an error reply which does
+// not depend on the dialer: an unsupported command (REP 0x07) or an unsupported address type
+// (REP 0x08). Oracle: a session that got at least the first four bytes of the exchange must
+// have received its OWN reply code. The part always runs under the race detector, so per-Handler
+// state written by concurrent sessions is reported even when the bytes happen to come out right.
+func TestVerif_C23_Shared(t *testing.T) {
+	r := verifkit.Start(t, "C23", "shared")
+	r.Rule("one case = 8 concurrent clients x 6 sessions on one socks5.Server; each session sends a greeting offering no-auth and a request with an " +
+		"unsupported command (2, 5..255) or an unsupported address type; non-trivial = at least 40 sessions of the case received a request reply; distinct by case PRNG")
+	d := &c23Dialer{}
+	cfg := socks5.DefaultServerConfig()
+	cfg.Address = "127.0.0.1:0"
+	cfg.Dialer = d
+	srv := socks5.NewServer(cfg)
+	if err := srv.Start(); err != nil {
+		r.Inconclusive("socks5.Server.Start: " + err.Error())
+		return
+	}
+	defer srv.Stop()
+	addr := srv.Address().String()
+	var aborted atomic.Bool
+	r.Cases("shared", r.N(40, 600), func(ci int, rng *verifkit.Rand) {
+		if aborted.Load() {
+			return
+		}
+		const clients, per = 8, 6
+		type sess struct {
+			stream []byte
+			want   byte
+			out    []byte
+		}
+		plan := make([][]sess, clients)
+		for g := range plan {
+			for k := 0; k < per; k++ {
+				var s sess
+				if rng.Bool() {
+					cmd := byte(2)
+					if rng.Bool() {
+						cmd = byte(rng.Range(5, 255))
+					}
+					s.stream, s.want = []byte{5, 1, 0, 5, cmd, 0, 1, 10, 1, 2, 3, 0, 80}, 0x07
+				} else {
+					at := verifkit.Pick(rng, []byte{0, 2, 5, 9, 0x7f, 0xff})
+					s.stream, s.want = []byte{5, 1, 0, 5, 1, 0, at}, 0x08
+				}
+				plan[g] = append(plan[g], s)
+			}
+		}
+		start := make(chan struct{})
+		var wg sync.WaitGroup
+		for g := range plan {
+			wg.Add(1)
+			go func(ss []sess) {
+				defer wg.Done()
+				<-start
+				for i := range ss {
+					cl, err := net.Dial("tcp", addr)
+					if err != nil {
+						aborted.Store(true)
+						return
+					}
+					cl.SetDeadline(time.Now().Add(c23Watchdog))
+					cl.Write(ss[i].stream)
+					buf := make([]byte, 64)
+					for len(ss[i].out) < 12 {
+						n, err := cl.Read(buf)
+						ss[i].out = append(ss[i].out, buf[:n]...)
+						if err != nil {
+							break
+						}
+					}
+					cl.Close()
+				}
+			}(plan[g])
+		}
+		close(start)
+		wg.Wait()
+		if aborted.Load() {
+			r.Inconclusive("dial socks5.Server failed")
+			return
+		}
+		judged := 0
+		for g := range plan {
+			for _, s := range plan[g] {
+				r.Add("shared_sessions", 1)
+				if len(s.out) < 4 || s.out[0] != 5 || s.out[1] != 0 {
+					r.Add("shared_sessions_without_request_reply", 1)
+					continue
+				}
+				judged++
+				r.Add("shared_replies_judged", 1)
+				r.Add(fmt.Sprintf("shared_want_%02x", s.want), 1)
+				if s.out[2] != 5 || s.out[3] != s.want {
+					kind := map[byte]string{0x07: "unsupported-command", 0x08: "unsupported-atyp"}[s.want]
+					r.Violation("shared-handler:"+kind+":wrong-reply-code", "shared", ci,
+						fmt.Sprintf("a session that asked for an %s got reply bytes %x (REP %#02x expected) while 7 other sessions ran on the same server", kind, s.out, s.want),
+						map[string]any{"client_stream_hex": verifkit.Hex(s.stream), "server_output_hex": verifkit.Hex(s.out)})
+				}
+			}
+		}
+		r.Eval(fmt.Sprintf("shared|%d|%d", ci, rng.U64()), judged >= 40)
+	})
+	r.Require("shared_replies_judged", int64(r.N(1500, 20000)))
+	r.Require("shared_want_07", 300)
+	r.Require("shared_want_08", 300)
+}
